@@ -59,6 +59,7 @@ int main(int argc, char** argv) {
         else if (!strcmp(argv[i], "--tier") && i + 1 < argc) h.thorough = !strcmp(argv[++i], "thorough");
         else if (!strcmp(argv[i], "--out") && i + 1 < argc) outp = argv[++i];
         else if (!strcmp(argv[i], "--in") && i + 1 < argc) { inp = argv[++i]; h.in_path = inp; }
+        else if (!strcmp(argv[i], "--shards") && i + 1 < argc) h.shards = atoi(argv[++i]);
         else if (!strcmp(argv[i], "--budget") && i + 1 < argc) h.budget = strtol(argv[++i], NULL, 10);
     }
     h.rng = seed * 0x2545F4914F6CDD1Dull + 0x1234567;
